@@ -455,6 +455,11 @@ partial def stepCase (st : St) (v : Verdict) (i : Nat) (opText obs : String) : S
         let w' := w.loadFlow res rules'
         let v := if (w'.ctrls res).map (·.id) != ids then
             v.setDiff s!"step={i} op=[{opText}] model holds controllers {(w'.ctrls res).map (·.id)}, implementation {ids}" else v
+        -- which statistic each controller got (`generate_stat_for`; Lean: `flowStatNew` / `flow_stat_is_world_stat`): the resource
+        -- node's windows ("g": default metric or a reader over the global window) or its own array ("p"; also the no-op statistic)
+        let kinds := (w'.ctrls res).map (fun c => match c.stat with | .global _ => "g" | _ => "p")
+        let v := if obsField obs "stats" != "" && (w'.ctrls res).map (·.id) == ids && kinds != listOf (obsField obs "stats") then
+            v.setDiff s!"step={i} op=[{opText}] model gives the controllers the statistics {kinds} (g = the resource node's windows, p = an own array), implementation {obsField obs "stats"}" else v
         -- shadow: a reload of an equal rule set (ids and order aside) is left out
         let same := msetEq (fun (r : FlowSpec) (c : FlowCtrl) => match c.spec with | some s => r.eqv s | none => false) rules' (st.sh.ctrls res)
         let sh' := if same then st.sh else st.sh.loadFlow res rules'
